@@ -333,6 +333,28 @@ def enumerate_argvs(doc, quick, rng):
             for other in others:
                 out.append(("groups2", place(["main.asm"], [[a_format(n, ps, sp)], other], 0)))
                 out.append(("groups2", place(["main.asm"], [other, [a_format(n, ps, sp)]], 0)))
+    # the same format name in two or three groups with different (valid) parameters: each group gets its own rendering
+    own = {f["name"]: [(p["k"], text(p["v"])) for p in f["params"]] for f in doc["formats"]}
+    SETTINGS = {"base": ["2", "8", "16", "32"], "group": ["1", "2", "3", "8"], "addr_unit": ["8", "16", "32"]}
+    for n, ps in own.items():
+        variants = [()]
+        for k, d in ps:
+            variants += [((k, [v]),) for v in SETTINGS.get(k, [d])]
+        if len(ps) >= 2:
+            variants += [((ps[0][0], [v1]), (ps[1][0], [v2])) for v1, v2 in [("2", "8"), ("16", "2"), ("8", "3")]]
+        if len(variants) < 2:
+            continue
+        pairs_ = list(itertools.permutations(variants, 2))
+        if quick:
+            pairs_ = rng.sample(pairs_, min(len(pairs_), 6))
+        for v1, v2 in pairs_:
+            out.append(("sameformat", place(["main.asm"], [[a_format(n, v1), a_output("a.out")], [a_format(n, v2), a_output("b.out")]], 0)))
+            out.append(("sameformat", place(["main.asm"], [[a_format(n, v1), a_flag("print")], [a_format(n, v2), a_output("b.out")]], 0)))
+    for n1, n2 in [("tcgame", "tcgamebin"), ("annotated", "annotatedhex"), ("annotated", "annotatedbin"), ("annotatedbin", "annotatedhex"),
+                   ("hexc", "decc"), ("hexcomma", "deccomma"), ("logisim8", "logisim16")]:
+        if n1 in own and n2 in own:
+            out.append(("sameformat", place(["main.asm"], [[a_format(n1), a_output("a.out")], [a_format(n2), a_output("b.out")]], 0)))
+            out.append(("sameformat", place(["main.asm"], [[a_format(n2), a_output("a.out")], [a_format(n1), a_output("b.out")]], 0)))
     R3 = R[:6] if quick else R[:12]
     for g1, g2, g3 in itertools.product(R3, R3, R3):
         out.append(("groups3", place(["main.asm"], [g1, g2, g3], 0)))
@@ -419,6 +441,7 @@ def cli_event(case, argv, r):
         "asm_static": ab["opt_static"] if ab else False, "asm_matcher": ab["opt_matcher"] if ab else False,
         "asm_ndefines": ab["ndefines"] if ab else -1, "asm_nfiles": ab["nfiles"] if ab else -1,
         "formatted": [{"print": e["print"], "file": chars(e["file"] or "")} for e in events if e.get("ev") == "formatted"],
+        "delivered": [{"sum": e["sum"], "want": e["want"]} for e in events if e.get("ev") == "delivered"],
         "writes": [chars(w["name"]) for w in (r.get("fslog") or []) if w.get("op") == "write" and w.get("ok")],
         "xval": _value("x", x["value"]) if x else {"name": "x", "t": "none", "b": False, "v": 0},
     }
